@@ -195,7 +195,7 @@ def finish(prop, results, t0, seed, tier, level="proof", extra_cov=None, assumpt
                                         for k, v in functions.items()),
         files={(os.path.relpath(k, "/repo") if k.startswith("/repo") else k): v for k, v in files.items()},
         scratch_fields_havocked=sorted(f"{a}.{b}" for a, b in havoc),
-        shared_writes=sorted(f"{a}.{b} at {c}:{d}" for a, b, c, d in shared),
+        shared_writes=sorted({f"{x[0]}.{x[1]} at {x[2]}:{x[3]}" for x in shared}),
         bounded_parts=list(bounded_parts) + [dict(what="native cross-check of the real function against the sidecar spec on "
                                                   "sampled inputs (also guards the encoder); NOT counted as proved",
                                                   samples=crosscheck)],
